@@ -9,25 +9,40 @@ TRUST = ("Lean 4.33 kernel; axioms at most propext/Classical.choice/Quot.sound (
          "translator translate/serial_fields.py (regex/brace parser of the C++ read/write pairs; members by Shark's "
          "m_/mp_/mep_/mpe_ naming) is trusted to render the source faithfully; ")
 MANIFEST = dict(
-  text=("Regenerated on every run from ALL hand-written read/write pairs (68) and serialize templates (42) under include/ and "
-        "src/: per class the ordered lists of archived expressions of read and of write and the data members. Theorems "
-        "(Gen/Serial.lean, Props/C18.lean): for every class read and write archive the same expressions in the same order with "
-        "the ISerializable signatures, and every data member is archived or on a reviewed allow-list with a reason "
-        "(closed by decide on the generated lists); a generic hand-proved lemma turns this into 'reading what was written "
-        "restores every archived expression, for every state and every fresh object' (read_write_id, class_roundtrip, "
-        "behaviour_preserved, optimizer_continues); dataset codecs (dense, sparse, labelled; any batch structure incl. empty "
-        "and single-element) decode what they encode (dataset_roundtrip_*). The correspondence round-trips real instances "
-        "(models, kernels incl. ModelKernel, kernel expansions with kernel, normalizer, datasets, eight optimizers after k "
-        "steps) through polymorphic text and binary archives and compares behaviour exactly."),
-  note=TRUST + "boost.serialization (tokens <-> bytes, pointer tracking) is not modelled; that a member's value determines behaviour "
-       "the way the C++ uses it is exercised by the harness on the instantiated classes only (~25 of 108 classes); "
-       "allow-list entries marked NOTED-unprobed (RBM layers, DropoutLayer, CMAChromosome::m_lastZ, PenalizingEvaluator) are not claimed.",
-  technique="Lean 4 proof over field lists regenerated from the C++ by a translator + differential round-trip harness (ASan/UBSan)",
-  design="§6 C18, §4 T3")
+  text=("Regenerated on every run from ALL hand-written read/write pairs (68) and serialize templates (42) under include/ and src/: "
+        "per class the ordered archived expressions of read and of write, the data members, the members mentioned by the behaviour "
+        "functions (eval, operator(), parameterVector, numberOfParameters, step, inputShape, outputShape and the methods they call), "
+        "the members rebuilt by read, the class family; and token codecs of the container classes (MatrixStorage, compressed_matrix, "
+        "Shape, SharedContainer, Data, LabeledData, BaseWeightedDataset) built from the field lists and declared member types. "
+        "Theorems (Gen/Serial.lean, Gen/SerialCodec.lean, Props/C18.lean): per class read and write archive the same expressions in "
+        "the same order with the ISerializable signatures; every data member is archived or on a reviewed allow-list; every member a "
+        "behaviour function reads is archived, rebuilt by read or allow-listed with a reason (dep_<Class>); hence reading what was "
+        "written restores every archived expression for every state and every target object, used or not (read_write_id, "
+        "class_roundtrip, read_overwrites_stale, read_twice_idem, rewrite_same_archive), behaviour functions agree when the target "
+        "agrees on the unarchived dependency keys only (family_behaviour_preserved), optimizers continue identically after a restore "
+        "at every step index (optimizer_continues_every_index); every generated container encoder decodes what it encodes followed "
+        "by any rest, for all sizes incl. no batch / empty batches / single elements (Codec law; dense/sparse/labelled/weighted "
+        "dataset token theorems), remora::vector and remora::matrix load correctly into ANY old object (vecLoad_roundtrip, "
+        "matLoad_roundtrip). The correspondence compares the payload token stream of the real write (recording archive) with the "
+        "generated encoder token by token, and runs 72 of the 108 classes (all dataset kinds incl. weighted and DataView-converted, "
+        "20 model classes incl. trainer-produced, 13 kernel classes incl. composites, kernel expansions dense/sparse/composite, "
+        "18 optimizers after every step index 0..6 (thorough 0..25)) through write -> read into a used target -> read another state -> "
+        "read twice -> second generation -> byte-equal rewritten archive, in polymorphic text and binary archives."),
+  note=TRUST + "boost.serialization (bytes, pointer tracking, its bookkeeping tokens) is not modelled; the type table CODEC_CLASSES (which "
+       "codec a C++ member type denotes) and the three pinned serialize bodies (vector, matrix, compressed_matrix_impl: modelled by "
+       "hand, pinned by text) are reviewed knowledge; that a member's VALUE determines behaviour the way the C++ uses it is exercised "
+       "by the harness on the 72 round-tripped classes only — the evidence lists the 36 classes not round-tripped (hypervolume and "
+       "indicator operators, GridSearch family, MklKernel, GaussianTaskKernel, OneVersusOneClassifier (needs export registration), "
+       "OptimizationTrainer, result sets, decompositions, triangular_matrix, compressed_vector/MOEAD/RVEA while findings F-C18-2/3 are open); "
+       "allow-list entries marked NOTED-unprobed (BinaryLayer::m_baseRate, DropoutLayer, CMAChromosome::m_lastZ) are not claimed.",
+  technique="Lean 4 proof over field lists, dependency lists and token codecs regenerated from the C++ by a translator + differential "
+            "round-trip harness with a token-recording archive (ASan/UBSan)",
+  design="§6 C18, §4 T3, §14")
 
 FINISH = dict(level="proof",
-              rule="datasets: kind x archive format x dimension x batch-size lists (incl. no batch, empty batches, single element) "
-                   "from one SplitMix64 stream; objects: every harness label x {text, binary} (optimizers after k in 0..4 (thorough: up to 25) steps); "
+              rule="datasets: every kind x {text, binary} x 7 boundary batch structures, then kind x format x dimension x batch-size lists "
+                   "from one SplitMix64 stream; vectors into used vectors; std wrappers; objects: every harness label x {text, binary} "
+                   "(optimizers after every k in 0..6 (thorough: 0..25) steps); "
                    "non-trivial = dataset with >= 2 batches or any object case; distinct = distinct op text")
 
 LAKE_TARGETS = ["SharkVerif.Props.C18", "drv_c18"]
